@@ -906,10 +906,16 @@ def check_purchase(run, model, cid, kind):
         return
     payload = model.call('purchase_decode', d=raw.hex())
     run.compare('C16.purchase_decode', case, raw[1:].hex(), payload)
-    run.compare('C16.purchase_tree', case, {'ok': msg_tree(back.message)},
-                model.call('parse_tree', d=raw[1:].hex(), schema=SCHEMA.table, depth=DEPTH, m=M_PURCHASE))
-    run.compare('C16.purchase_encode', case, raw.hex(),
-                model.call('purchase_encode', p=model.call('ser_tree', tree=etree)))
+    run.compare('C16.purchase_decode_all', case, {'ok': msg_tree(back.message)},
+                model.call('purchase_decode_all', d=raw.hex(), schema=SCHEMA.table, depth=DEPTH, m=M_PURCHASE))
+    run.compare('C16.purchase_encode_all', case, raw.hex(), model.call('purchase_encode_all', tree=etree))
+    for bad in (b'', raw[1:], b'Q' + raw[1:], b'p' + raw[1:]):
+        try:
+            Purchase.from_bytes(bad)
+            impl = 'accepted'
+        except DecodeError:
+            impl = None
+        run.compare('C16.purchase_reject', case, impl, model.call('purchase_decode', d=bad.hex()) if not bad.startswith(b'P') else 'accepted')
 
 
 # ------------------------------------------------------------------------------------------------
